@@ -14,17 +14,17 @@ import (
 )
 
 type goCompiler struct {
-	v       *Verifier
-	fn      *ssa.Function
-	params  map[string]string // spec param name -> Go expression
-	results []string
-	olds    []string // Go statements saving old() values before the call
-	nOld    int
-	defs    map[string]bool
-	defSrc  []string
-	bound   map[string]bool
-	inOld   bool
-	err     error
+	v          *Verifier
+	fn         *ssa.Function
+	params     map[string]string // spec param name -> Go expression
+	results    []string
+	olds       []string // Go statements saving old() values before the call
+	nOld       int
+	defs       map[string]bool
+	defSrc     []string
+	bound      map[string]bool
+	inOld      bool
+	err        error
 	predParams []string
 }
 
